@@ -34,7 +34,18 @@ structure MoveFits (b : Board) (w : Bool) (m : Move) : Prop where
     b (vsq w m.toSq) = some (if w then BP else WP) ∧ m.promotion = PNONE ∧ m.isCastling = false
   promo : m.promotion ≠ PNONE → ownP w m.promotion ∧ m.promotion ≠ m.piece
   castle : m.isCastling = true → m.promotion = PNONE ∧ m.isCapture = false ∧
-    ∃ r f t, rookHop m.toSq = some (r, f, t) ∧ b f = some r ∧ b t = none ∧ m.fromSq ≠ f ∧ m.fromSq ≠ t
+    ∃ r f t, rookHop m.toSq = some (r, f, t) ∧ b f = some r ∧ b t = none ∧ m.fromSq ≠ f ∧ m.fromSq ≠ t ∧ ownP w r ∧ m.piece ≠ r
+  /-- castling starts on the king's home square, and it is the king that moves -/
+  castleFrom : m.isCastling = true → m.fromSq = (if w then 60 else 4) ∧ m.piece = (if w then WK else BK)
+  /-- only pawns promote, and not to a pawn or a king -/
+  promoKind : m.promotion ≠ PNONE → m.piece = (if w then WP else BP) ∧ m.promotion ≠ WP ∧ m.promotion ≠ BP ∧
+    m.promotion ≠ WK ∧ m.promotion ≠ BK
+  /-- a pawn that does not promote stays off the first and last rows -/
+  pawnTo : m.piece = (if w then WP else BP) → m.promotion = PNONE → 8 ≤ m.toSq ∧ m.toSq < 56
+  /-- a double push: a pawn, two rows, over an empty square -/
+  dpush : m.isDoublePush = true → m.piece = (if w then WP else BP) ∧ m.isCapture = false ∧ m.promotion = PNONE ∧
+    m.isCastling = false ∧ (w = true → m.toSq + 16 = m.fromSq ∧ b (m.toSq + 8) = none) ∧
+    (w = false → m.fromSq + 16 = m.toSq ∧ b (m.toSq - 8) = none)
 
 /-- the board after the move -/
 def applyB (b : Board) (w : Bool) (m : Move) : Board :=
@@ -358,7 +369,7 @@ theorem makeCore_rep (g g' : Game) (m : Move) (b : Board) (h : Rep g.bbs b none)
     have hsp := postSpecial_rep _ m _ hr4 hpl fits.toLt (by simp)
       (fun hpr => ⟨ownP_lt (fits.promo hpr).1, (fits.promo hpr).2⟩)
       (fun hpn hcs => by
-        obtain ⟨_, hcf, r, f, t, hhop, hbf, hbt, hff, hft⟩ := fits.castle hcs
+        obtain ⟨_, hcf, r, f, t, hhop, hbf, hbt, hff, hft, _, _⟩ := fits.castle hcs
         obtain ⟨n1, n2, _, _, _, _⟩ := rookHop_ne _ _ _ _ hhop
         have he : ¬ (m.isEnpassant = true) := fun he => by have := (fits.ep he).1; rw [hcf] at this; exact absurd this (by simp)
         rw [if_neg he] at hb2
